@@ -40,7 +40,7 @@ COMPONENTS = {
     "stub": ["CAN backend (SimBus)", "can.Notifier", "time/queue in canopen.sdo.client", "RefSdoClient (set-up ii)", "RefSdoServer (set-up iii)"],
 }
 PROBES = ["read-wo", "write-ro", "missing-index", "missing-sub-of-record", "missing-sub-of-var", "wrong-length", "no-value", "toggle-up", "toggle-down",
-          "unknown-command", "client-decoding", "valid-after-refusal", "refusal-on-closing-segment-of-undeclared-stream"]
+          "unknown-command", "client-decoding", "valid-after-refusal", "refusal-on-closing-segment-of-undeclared-stream", "download-interleaved-with-upload-of-ro"]
 # probes that mark an injected disturbance; the runner also counts them as fired faults in the evidence
 FAULT_PROBES = {'toggle-down': 'wrong-toggle-request', 'toggle-up': 'wrong-toggle-request', 'unknown-command': 'unknown-command-request'}
 
@@ -357,7 +357,7 @@ def _setup_ii(ctx, fpos=None, fdir=None):
     for k in range(nops):
         with ctx.span("op"):
             first = k == 0 and fpos is not None
-            op = ctx.choice(4, "op") if not first else (0 if fdir == 0 else 1)
+            op = ctx.choice(5, "op") if not first else (0 if fdir == 0 else 1)
             snap = w.store_snapshot()
             nlog = len(w.wlog)
             try:
@@ -392,6 +392,41 @@ def _setup_ii(ctx, fpos=None, fdir=None):
                     rs = cl.exchange(bytes([t << 4 | n << 1 | (1 if last else 0)]) + chunk + bytes(n))
                     cl.state = None
                     _judge_frame_refusal(ctx, w, what, "toggle-down" + ("-last" if last else ""), rs, {TOGGLE}, (e.index, e.sub), snap, nlog, pos)
+                elif op == 4:
+                    # a segmented download to a writable entry, an upload request for a read-only / constant entry in the
+                    # middle of it (which moves the server's notion of "the object of the transfer"), then the last segment:
+                    # whatever the server makes of that, the read-only entry is never written
+                    c = [x for x in entries if x.access == "rw" and x.dtype in (codec.DOMAIN, codec.OCTET_STRING)]
+                    ros = [x for x in entries if x.access in ("ro", "const") and x.readable() and x.current() is not None]
+                    if not ros:
+                        continue
+                    e = c[ctx.choice(len(c), "ent")]
+                    b = ros[ctx.choice(len(ros), "roent")]
+                    ln = 15 + ctx.choice(20, "len")
+                    data = world.pattern(ln, 13)
+                    nseg = (ln + 6) // 7
+                    what = "download %04X:%02X (%d bytes) with an upload request for the %s entry %04X:%02X before its last segment" % (
+                        e.index, e.sub, ln, b.access, b.index, b.sub)
+                    cl.init_download(e.index, e.sub, data, "seg" if ctx.choice(2, "sz") else "seg-nosize")
+                    for j in range(nseg - 1):
+                        cl.download_segment(data[7 * j:7 * j + 7], False)
+                    t = cl.state["toggle"]
+                    cl.exchange(bytes([0x40, b.index & 0xFF, b.index >> 8, b.sub, 0, 0, 0, 0]))
+                    chunk = data[7 * (nseg - 1):]
+                    n = 7 - len(chunk)
+                    cl.exchange(bytes([t << 4 | n << 1 | 1]) + chunk + bytes(n))
+                    cl.state = None
+                    after = w.store_snapshot()
+                    if after.get((b.index, b.sub)) != snap.get((b.index, b.sub)):
+                        ctx.violation("C06/store-changed-by-refused-access/interleaved-upload-of-ro", "%s: the %s entry now holds %r" % (what, b.access, after.get((b.index, b.sub))))
+                    told = [(i, s_, len(d)) for i, s_, d in w.wlog[nlog:] if (i, s_) == (b.index, b.sub)]
+                    if told:
+                        ctx.violation("C06/write-callback-on-refused-write/interleaved-upload-of-ro", "%s: write callbacks were told %r" % (what, told))
+                    if w.bus.rx_errors:
+                        can_id, data_, x = w.bus.rx_errors[0]
+                        ctx.violation("C06/raised-into-receive-path/%s@%s" % (type(x).__name__, site(x)), "%s: server raised %r" % (what, x))
+                    ctx.probe("download-interleaved-with-upload-of-ro")
+                    ctx.cover(("ii", "interleaved-upload-of-ro", b.access, True))
                 elif op == 2:
                     # undefined / unsupported command specifier outside any transfer
                     fr = bytes([(0xE0, 0xC0, 0xC2, 0xE1, 0xFF)[ctx.choice(5, "cmd")], 0x00, 0x20, 0, 0, 0, 0, 0])
